@@ -141,9 +141,10 @@ func (f *fakeChain) register(u *utxo, h20 []byte, h32 []byte) {
 		tx = &bitcoin.Transaction{Version: 1}
 		f.txs[txHash(u.id)] = tx
 	}
-	for uint32(len(tx.Outputs)) <= u.idx {
+	for len(tx.Outputs) <= 8 { // every index an op line may name exists (kind x on a shared
+		// funding transaction then points at an OP_RETURN filler: unknown script class)
 		tx.Outputs = append(tx.Outputs,
-			&bitcoin.TransactionOutput{Value: 1, PublicKeyScript: []byte{0x6a}}) // OP_RETURN filler
+			&bitcoin.TransactionOutput{Value: 1, PublicKeyScript: []byte{0x6a}})
 	}
 	tx.Outputs[u.idx] = &bitcoin.TransactionOutput{Value: u.value + int64(u.id%2)*7, PublicKeyScript: script}
 }
